@@ -144,10 +144,10 @@ carries only what its constructor stored; `session` threads that object through 
 theorem login_leaves_client (c : Client) (st : Step) : (c.login st).1 = c := login_client_unchanged c st
 
 /-- **history independence**: the k-th login of a session — after other accounts, guest logins, failed attempts,
-    logins with or without extra data — is planned exactly as the same login through a fresh client -/
+    logins with or without extra data — is planned exactly as the same login alone through a fresh client -/
 theorem login_history_independent (cfg : Cfg) (steps : List Step) (k : Nat) :
-    (session ⟨cfg⟩ steps)[k]? = steps[k]?.map (fun st => (session ⟨cfg⟩ [st]).head!) := by
-  rw [session_getElem?]; cases steps[k]? <;> simp [session, Client.login]
+    ((session ⟨cfg⟩ steps)[k]?).map (fun p => [p]) = steps[k]?.map (fun st => session ⟨cfg⟩ [st]) :=
+  session_step_alone ⟨cfg⟩ steps k
 
 /-- in particular whatever came before (`pre`) does not matter for the login that follows -/
 theorem login_after_any_prefix (cfg : Cfg) (pre pre' : List Step) (st : Step) :
@@ -160,19 +160,12 @@ theorem session_step_first_fail (cfg : Cfg) (pre : List Step) (st : Step) (code 
     (session ⟨cfg⟩ (pre ++ [st]))[pre.length]? = some ⟨[firstCall cfg st.args], .none, .error (.rmc code)⟩ := by
   rw [session_after_prefix, plan_first_fail cfg st.args st.script code h]
 
-/-- and a step that ends in a connection passed every gate *itself* (its own response, its own key, its own tickets) -/
+/-- and a step that ends in a connection passed every gate *itself*: it is the plan of its own arguments against its own
+    script, and the credentials carry the pid issued in *its* response (not an earlier step's) -/
 theorem session_step_connect (cfg : Cfg) (steps : List Step) (k : Nat) (p : Plan) (c : Connect)
     (hp : (session ⟨cfg⟩ steps)[k]? = some p) (h : p.outcome = .ok c) :
-    ∃ st, steps[k]? = some st ∧ p = plan cfg st.args st.script ∧ c.pid = (match st.script.first with | .resp r => r.pid | .fail _ => 0) := by
-  rw [session_getElem?] at hp
-  cases hs : steps[k]? with
-  | none => simp [hs] at hp
-  | some st =>
-    simp [hs] at hp
-    subst hp
-    refine ⟨st, rfl, rfl, ?_⟩
-    obtain ⟨r, ku, key, t, tf, hf, _, _, _, _, hc, _⟩ := plan_connect_inv cfg st.args st.script c h
-    simp [hf, hc]
+    ∃ st r, steps[k]? = some st ∧ p = plan cfg st.args st.script ∧ st.script.first = .resp r ∧ c.pid = r.pid :=
+  session_connect_own ⟨cfg⟩ steps k p c hp h
 
 example : (session ⟨⟨30000, 0, 0, 32, 4, "auth", 1⟩⟩
     [⟨⟨"u", none, false⟩, ⟨.fail 0x80010002, .fail 0⟩⟩, ⟨guestArgs, ⟨.fail 0x80030065, .fail 0⟩⟩]).map (·.outcome) =
